@@ -507,6 +507,7 @@ def run(F, rep, tier):
     declared_types_known(F, rep)
     ret_fold(F, rep)
     binder_typed(F, rep)
+    type_names_are_not_values(F, rep)
     tc.dropped_results(F, rep, "DROPPED-ERROR", ["sylt_compiler::typechecker::", "sylt_compiler::name_resolution::", "sylt_compiler::dependency::"])
 
 
@@ -559,6 +560,36 @@ def binder_typed(F, rep, rule="BINDER-TYPED"):
                 "Unknown, so `%s.<anything>` and every operator on it are accepted" % (fname, rf, key[0], key[1], key[2],
                                                                                         "self" if key[2] == "self_var" else key[2])),
                line_of(got[0]) if got else F.fn(TC + fname)["sp"])
+
+
+def type_names_are_not_values(F, rep, rule="TYPE-NAME"):
+    """outer_statement unifies the variable of a blob / enum declaration with the declared type itself, so *reading* that
+    variable as an expression (`a := A`, `f(A)`, `A.x`) would be typed as an instance although declarations emit no code.
+    The Read arm has to recognise those variables: a membership test against a collection that the Blob and Enum arms of
+    outer_statement fill."""
+    fos = F.fn(TC + "outer_statement")
+    filled = {}
+    for v in ("Blob", "Enum"):
+        for arm, alt in tc.arm_of(F, fos, NR + "Statement", v):
+            for c in nodes(arm["body"], "MethodCall"):
+                r = peel(c["recv"])
+                if c["m"] == "insert" and r.get("k") == "Field" and ty_is((r.get("base_ty") or "").replace("&mut ", "").replace("&", ""), TCM + "TypeChecker"):
+                    filled.setdefault(r["name"], set()).add(v)
+    fields = {f for f, vs in filled.items() if vs == {"Blob", "Enum"}}
+    fexpr = F.fn(TC + "expression")
+    tested = False
+    for arm, alt in tc.arm_of(F, fexpr, NR + "Expression", "Read"):
+        for i in nodes(arm["body"], "If"):
+            c = peel(i["c"])
+            if c.get("k") == "MethodCall" and c["m"] in ("contains", "contains_key") and peel(c["recv"]).get("name") in fields \
+                    and tc.is_err_value(i["t"]):
+                tested = True
+    rep.ob(rule, "expression|Read|declarations-rejected", tested,
+           "reading the variable of a blob / enum declaration as a value is a type error (Read tests membership in %s)" % sorted(fields)
+           if tested else
+           "TypeChecker::expression's Read arm returns the type of any variable, also of the variable of a blob or enum "
+           "declaration - which is the declared type: `a := A` followed by `a.x + 1` type-checks although A is never a value "
+           "at run time", fexpr["sp"])
 
 
 def ret_fold(F, rep):
